@@ -19,6 +19,7 @@ func plans(quick bool) []netsim.CrashPlan {
 		{Name: "cache-4v-victim1-txs", N: 4, Victim: 1, Flush: false, Heights: 3, WithTxs: true},
 		{Name: "flush-4v-victim2-late-votesfirst", N: 4, Victim: 2, Flush: true, Heights: 3, Late: true, VotesFirst: true},
 		{Name: "flush-1v-late-txs", N: 1, Victim: 0, Flush: true, Heights: 3, Late: true, WithTxs: true},
+		{Name: "flush-4v-victim3-rotate", N: 4, Victim: 3, Flush: true, Heights: 4, Rotate: 1200},
 		{Name: "flush-1v-second-txs", N: 1, Victim: 0, Flush: true, Heights: 3, Second: true, WithTxs: true},
 	}
 	if quick {
@@ -34,6 +35,8 @@ func plans(quick bool) []netsim.CrashPlan {
 	ps = append(ps, netsim.CrashPlan{Name: "flush-1v", N: 1, Victim: 0, Flush: true, Heights: 4, WithTxs: true})
 	ps = append(ps, netsim.CrashPlan{Name: "cache-1v", N: 1, Victim: 0, Flush: false, Heights: 4})
 	ps = append(ps, netsim.CrashPlan{Name: "flush-7v-victim3", N: 7, Victim: 3, Flush: true, Heights: 3})
+	ps = append(ps, netsim.CrashPlan{Name: "flush-1v-rotate-late-txs", N: 1, Victim: 0, Flush: true, Heights: 5, Rotate: 900, Late: true, WithTxs: true})
+	ps = append(ps, netsim.CrashPlan{Name: "flush-4v-victim0-rotate-txs", N: 4, Victim: 0, Flush: true, Heights: 5, Rotate: 2500, WithTxs: true})
 	for v := 0; v < 4; v += 2 {
 		ps = append(ps, netsim.CrashPlan{Name: fmt.Sprintf("flush-4v-victim%d-second-txs", v), N: 4, Victim: v, Flush: true, Heights: 4, Second: true, WithTxs: true})
 	}
